@@ -394,3 +394,49 @@ Definition alternate_apply (alts : list N) (glyph_mask lookup_mask : N) (random 
       else if ai =? 0 then None
       else nth_error alts (N.to_nat (ai - 1))
   end.
+
+(* ================================================================ specification vocabulary
+   (predicates the theorems of Props/C14.v are stated with; definitions only) *)
+
+(* the set of cluster indices a Rust range contains (RangeBounds::contains) *)
+Definition In_range (r : rform) (c : N) : Prop :=
+  match r with
+  | RHalf a b => a <= c /\ c < b
+  | RIncl a b => a <= c /\ c <= b
+  | RTo b => c < b
+  | RToIncl b => c <= b
+  | RFrom a => a <= c
+  | RFull => True
+  end.
+
+(* what set_masks does to one glyph *)
+Definition set_one (value mask cs ce : N) (g : N * N) : N * N :=
+  if negb (mask =? 0) && covers_se cs ce (fst g)
+  then (fst g, N.lor (N.land (snd g) (lnot32 mask)) (N.land value mask)) else g.
+
+(* glyph g' is glyph g after set_masks: same cluster; bit n is value's bit when n is a mask bit and the
+   cluster is covered, the old bit otherwise *)
+Definition set_masks_post (value mask cs ce : N) (g g' : N * N) : Prop :=
+  fst g' = fst g /\
+  forall n, N.testbit (snd g') n =
+            if N.testbit mask n && covers_se cs ce (fst g) then N.testbit value n else N.testbit (snd g) n.
+
+(* a compiled feature that rides on the global bit *)
+Definition is_global_map (f : fmap) : Prop := m_shift f = feat_global_bit /\ m_mask f = GLOBAL_BIT_MASK.
+
+(* a compiled feature with a field of its own: w bits (1 <= w <= MAX_BITS) at m_shift, inside [lo, hi) *)
+Definition field_within (lo hi : N) (f : fmap) : Prop :=
+  is_global_map f \/
+  exists w, 1 <= w /\ w <= feat_max_bits /\ lo <= m_shift f /\ m_mask f = field_mask (m_shift f) w /\
+            m_shift f + w <= hi.
+
+(* two compiled features never share a bit, except that all global-bit features share that one bit *)
+Definition masks_compatible (f g : fmap) : Prop :=
+  N.land (m_mask f) (m_mask g) = 0 \/ (is_global_map f /\ is_global_map g).
+
+(* features the canonical printer is defined for: 4 tag characters, value and start below 2^31 (from_str
+   reads numbers as i32), end below 2^31 or "to the end" *)
+Definition printable (t0 t1 t2 t3 : N) (f : feature) : Prop :=
+  is_tagch t0 = true /\ is_tagch t1 = true /\ is_tagch t2 = true /\ is_tagch t3 = true /\
+  f_tag f = tag_of_bytes [t0; t1; t2; t3] /\
+  f_value f <= 2147483647 /\ f_start f <= 2147483647 /\ (f_end f <= 2147483647 \/ f_end f = U32MAX).
